@@ -115,7 +115,7 @@ SPECS.update({
                  "against a table computed from a refwire walk of the same bytes (last occurrence / all occurrences with packed runs expanded / "
                  "not-found / not-defined / wire-type mismatch / overflow); non-trivial when the message has >=2 fields and the tag is present; "
                  "distinct by (accessor, wire type of the field, outcome class, mode, entry point, nesting depth)"),
-        "explanation": "messages: 1-12 fields, nesting <=3, all four wire types, repeated and packed runs, empty strings and empty nested messages, field numbers up to 2^29-1, every 50th case the empty message; definitions over present/absent/nested tags with negative twins; entry points Decode function, Decoder safe, Decoder fast; three mutated/random byte strings per message are decoded and every accessor called with only 'no panic' judged; every 3rd case additionally keeps four results of one Decoder alive together (interleaved reads, sibling Close, recycled decode) and re-reads nested results handed out earlier; the one-Decoder scenario rotates WithMaxBufferSize(-1,0,1,2) and decodes again after everything was closed; every 4th case changes the SAME Def object in place (tag swapped, nested definition extended) and calls the Decode function again",
+        "explanation": "messages: 1-12 fields, nesting <=3, all four wire types, repeated and packed runs, empty strings and empty nested messages, field numbers up to 2^29-1, every 50th case the empty message; definitions over present/absent/nested tags with negative twins; entry points Decode function, Decoder safe, Decoder fast; three mutated/random byte strings per message are decoded and every accessor called with only 'no panic' judged; every 3rd case additionally keeps four results of one Decoder alive together (interleaved reads, sibling Close, recycled decode) and re-reads nested results handed out earlier; the one-Decoder scenario rotates WithMaxBufferSize(-1,0,1,2) and decodes again after everything was closed; every 4th case changes the SAME Def object in place (tag swapped, nested definition extended) and calls the Decode function again; nested results obtained from NestedResults are closed by the caller in half of the cases (must disturb neither the parent nor later decodes with the same decoder)",
         "assumptions": TRUST_LAZY + ["a packed run containing a 10-byte varint with overflow bits is outside the precondition and not judged"],
     },
     "C14": {
@@ -376,16 +376,16 @@ def c16_run(prop, spec, workdir, tier, seed, t0):
             first = p["fast_error"].split("\n")[0][:160]
             viol("%s:%s:%s" % (base, kind, _norm_err(first)), "%s: protoc-gen-fastmarshal failed: %s" % (p["pkg"], p["fast_error"][:600]), dict(wit, error=p["fast_error"][:3000]))
             continue
-        if p["files"]:
+        if (p.get("files") or []):
             merged["classes"]["%s/%s/%s" % (p["unit"], p["flavour"], p["optkey"])] = 1
         if not p["deterministic"]:
             viol(base + ":nondeterministic", "%s: two runs on the identical request produced different bytes" % p["pkg"], wit)
         for n in p.get("duplicate_names") or []:
-            viol(base + ":duplicate-output-name", "%s: output file name emitted twice: %s" % (p["pkg"], n), dict(wit, files=p["files"]))
+            viol(base + ":duplicate-output-name", "%s: output file name emitted twice: %s" % (p["pkg"], n), dict(wit, files=(p.get("files") or [])))
         if p.get("multi_file"):
             viol(base + ":multi-file-request", "%s: %s" % (p["pkg"], p["multi_file"]), wit)
         for n in p.get("bad_names") or []:
-            viol(base + ":undocumented-output-name", "%s: output file name not of the documented form: %s" % (p["pkg"], n), dict(wit, files=p["files"]))
+            viol(base + ":undocumented-output-name", "%s: output file name not of the documented form: %s" % (p["pkg"], n), dict(wit, files=(p.get("files") or [])))
         for e in p.get("parse_errors") or []:
             viol(base + ":unparsable:" + _norm_err(e)[:120], "%s: emitted Go source does not parse: %s" % (p["pkg"], e), wit)
         if not p["compile_ok"] and not p.get("duplicate_names"):
@@ -396,8 +396,8 @@ def c16_run(prop, spec, workdir, tier, seed, t0):
                 first = lines[0] if lines else (p.get("compile_error") or "")[:160]
                 first = first.split(": ", 1)[-1]
                 viol("%s:compile-error:%s" % (base, _norm_err(first)[:140]), "%s: generated code does not compile: %s" % (p["pkg"], (p.get("compile_error") or "")[:600]), dict(wit, error=(p.get("compile_error") or "")[:3000]))
-        if len(merged["samples"]) < 6 and p["files"]:
-            merged["samples"].append({"package": p["pkg"], "parameter": p.get("fast_param"), "files": p["files"][:6], "deterministic": p["deterministic"], "compiles": p["compile_ok"]})
+        if len(merged["samples"]) < 6 and (p.get("files") or []):
+            merged["samples"].append({"package": p["pkg"], "parameter": p.get("fast_param"), "files": (p.get("files") or [])[:6], "deterministic": p["deterministic"], "compiles": p["compile_ok"]})
     merged["extras"]["fast_packages"] = nfast
     merged["extras"]["units"] = len({p["unit"] for p in report["packages"]})
     return driver.finish(prop, spec, tier, seed, merged, t0)
@@ -411,7 +411,7 @@ SPECS.update({
         "rule": ("one case = (schema unit, flavour, option tuple {single file, file per message} x {unsafe decode off, on} with the API version fixed by the flavour and specialname= set where the unit needs it): the real protoc-gen-fastmarshal "
                  "(built from the tree under test) is run twice on the identical CodeGeneratorRequest; it must not fail or crash, both responses must be byte-identical, every file name must be emitted once and be of the form <prefix>.pb.fm.go / "
                  "<prefix>_<lower(message)>.pb.fm.go, every file must parse (go/parser) and the package must compile together with the types produced by protoc-gen-gogo / protoc-gen-go; non-trivial when the response holds >=1 file; distinct by (unit, flavour, option tuple)"),
-        "explanation": "corpus: feature matrix for proto2 and proto3 (scalars, repeated, packed/unpacked, oneofs, maps by key and value kind, nested/recursive, field-number ranges, enums, well-known types, name collisions, equal short names, proto3 optional, required, extensions by family) plus seeded random units; fields named size/marshal_to are generated for the gogo-style runtimes only (protoc-gen-go cannot rename them: not in the supported set); units added by the seeded rounds: required fields only in nested / equally named messages, fields named like gogo-generated methods (six specialname options), extension and field defaults, extend blocks at depth 2-3, repeated extensions of bytes/sfixed64/enum/message kind, 3-way file-name collisions, required fields with defaults, imports of a generated package whose Go package name differs from its path (also generated together with the main file in one request, whose output must not change); boolean options are spelled in every form strconv.ParseBool accepts",
+        "explanation": "corpus: feature matrix for proto2 and proto3 (scalars, repeated, packed/unpacked, oneofs, maps by key and value kind, nested/recursive, field-number ranges, enums, well-known types, name collisions, equal short names, proto3 optional, required, extensions by family) plus seeded random units; fields named size/marshal_to are generated for the gogo-style runtimes only (protoc-gen-go cannot rename them: not in the supported set); units added by the seeded rounds: required fields only in nested / equally named messages, fields named like gogo-generated methods (six specialname options), extension and field defaults, extend blocks at depth 2-3, repeated extensions of bytes/sfixed64/enum/message kind, 3-way file-name collisions, required fields with defaults, imports of a generated package whose Go package name differs from its path (also generated together with the main file in one request, whose output must not change); boolean options are spelled in every form strconv.ParseBool accepts; one unit (p2reqtwofiles) is made from two proto2 files with required fields that are generated into ONE Go package and compiled together; units p?mapwkt (a type of another Go package used only as a map value) and p?enumonly (a file without messages)",
         "assumptions": TRUST_GEN[:1] + ["the harness plays protoc's role; descriptors validated by protodesc.NewFile"],
     },
 })
@@ -447,7 +447,7 @@ SPECS.update({
                  "reflection walk reports every string/[]byte (fields, repeated elements, map keys/values, oneof members, nested messages, unknown-field storage) whose data pointer lies inside the buffer. "
                  "lazyproto: every accessor value obtained in safe mode (Decode function, Decoder) is snapshotted, the caller's buffer clobbered/reused, values compared and all accessors re-read, also after Close. "
                  "non-trivial when a string/bytes/unknown field is present; distinct by (package, message, field/case) resp. (entry point, clobber stage)"),
-        "explanation": "packages generated with enableunsafedecode=true are run too: aliasing of strings there is the documented opt-in and is only counted (alias_observed_in_unsafe_decode_packages) to show that the monitor fires; aliasing of bytes/unknown fields there is still reported",
+        "explanation": "packages generated with enableunsafedecode=true are run too: aliasing of strings there is the documented opt-in and is only counted (alias_observed_in_unsafe_decode_packages) to show that the monitor fires; aliasing of bytes/unknown fields there is still reported; before every target the types generated WITH enableunsafedecode are given an input whose nested message is malformed (their Unmarshal fails halfway) and a valid one, and a background goroutine keeps decoding valid nested input with them while the default-mode targets are judged (what other code did with the library must not matter)",
         "assumptions": TRUST_GEN + TRUST_LAZY,
     },
 })
@@ -463,7 +463,7 @@ SPECS.update({
                  "MsgType equals the flavour's class; csproto.Equal across runtimes is false; unsupported values (nil, int, string, struct, pointer to non-message, typed nil, slice) give the documented error/zero result without panic; "
                  "distinct by (flavour, plain/fast, message, value class). concurrent: rounds in which G in {2,16,64} goroutines (GOMAXPROCS 1,2,16) call MsgType/Clone/MarshalText on values of types whose classification was just "
                  "evicted (verif hook), with seeded yields between cache miss and store, under -race; every goroutine must observe the correct class; evidence counts rounds with >=2 goroutines inside the miss window"),
-        "explanation": "every case ends with Size/Marshal after lock-step in-place mutations of the message that was sized and marshaled before (oracle: the owning runtime's Marshal of a fresh copy of the current contents); gogo well-known types are exercised as fields of plain gogo types; decoding (value bytes, nil, empty payload; Unmarshal and GrpcCodec) into a message that already holds other content must match the owning runtime's Unmarshal; plain types with an unset required field must be accepted/refused like the owning runtime does; Equal(generated, *dynamicpb.Message of the same descriptor) vs proto.Equal for Google V2; MarshalText on messages with unknown fields and on typed nil pointers; plain gogo types also in the 'plainsz' flavour (generated Size(), no Marshal/Unmarshal); for half of the types (chosen by the seed) the first value csproto sees in the process is a typed nil pointer (MsgType/Clone/Equal/Size/MarshalText), whose result is not judged",
+        "explanation": "every case ends with Size/Marshal after lock-step in-place mutations of the message that was sized and marshaled before (oracle: the owning runtime's Marshal of a fresh copy of the current contents); gogo well-known types are exercised as fields of plain gogo types; decoding (value bytes, nil, empty payload; Unmarshal and GrpcCodec) into a message that already holds other content must match the owning runtime's Unmarshal; plain types with an unset required field must be accepted/refused like the owning runtime does; Equal(generated, *dynamicpb.Message of the same descriptor) vs proto.Equal for Google V2; MarshalText on messages with unknown fields and on typed nil pointers; plain gogo types also in the 'plainsz' flavour (generated Size(), no Marshal/Unmarshal); for half of the types (chosen by the seed) the first value csproto sees in the process is a typed nil pointer (MsgType/Clone/Equal/Size/MarshalText), whose result is not judged; Equal(m, m) with the same object on both sides against the owning runtime's Equal(m, m); the Go package NAMES of the corpus do not mention the runtime, so the same schema gives equally named types for the three runtimes, and for a quarter of the types the twins of the other runtimes are classified first",
         "assumptions": TRUST_GEN + ["the owning runtime's API is the stated oracle for Clone/Equal/Reset/MarshalText", "the race detector only sees races on executions that happened"],
     },
 })
@@ -494,7 +494,7 @@ SPECS.update({
                  "equal as a JSON tree to the owning runtime's own encoder given the same options (protojson / golang jsonpb / gogo jsonpb called directly), be restored to an equal message by JSONUnmarshaler and by the owning runtime's decoder; "
                  "indentation must be whole copies of the indent string; enum fields are numbers iff requested; zero-valued implicit fields appear iff requested; JSON with an injected unknown key is accepted iff allowed; JSON lacking a required key "
                  "is accepted iff allowPartial (Google V2, as documented); nil -> (nil, nil), unmarshal into nil -> error; distinct by (flavour, message, option tuple, value class)"),
-        "explanation": "values with NaN or -0.0 are excluded (JSON cannot carry the distinction); comparisons are on parsed JSON trees, never on raw text; well-known types are additionally run as root messages (Value of all six kinds incl. null, Struct, ListValue, Timestamp, Duration, wrappers, FieldMask, Empty) for the Google V2 and Gogo runtimes, restricted to values the owning runtime's own JSON codec round-trips; typed nil pointers of 13 well-known types in the nil clause; gogo messages with an enum field imported from another gogo package are built by Go reflection (the bridge cannot reflect on them) and compared with gogo's jsonpb; two values per type have their strings overwritten in field order from a curated list (trailing backslash first, then ', ' / ':  ' / quotes / braces); adapters are also given the OTHER side's options set to the opposite values (no documented effect there); self-recursive types get chains 101 and 140 levels deep",
+        "explanation": "values with NaN or -0.0 are excluded (JSON cannot carry the distinction); comparisons are on parsed JSON trees, never on raw text; well-known types are additionally run as root messages (Value of all six kinds incl. null, Struct, ListValue, Timestamp, Duration, wrappers, FieldMask, Empty) for the Google V2 and Gogo runtimes, restricted to values the owning runtime's own JSON codec round-trips; typed nil pointers of 13 well-known types in the nil clause; gogo messages with an enum field imported from another gogo package are built by Go reflection (the bridge cannot reflect on them) and compared with gogo's jsonpb; two values per type have their strings overwritten in field order from a curated list (trailing backslash first, then ', ' / ':  ' / quotes / braces); adapters are also given the OTHER side's options set to the opposite values (no documented effect there); self-recursive types get chains 101 and 140 levels deep; for half of the types the equally named twins generated for the other runtimes (same Go package name and type name, hence the same %T) go through both adapters first",
         "assumptions": TRUST_GEN + ["the owning runtime's JSON implementation is the stated oracle for option effects"],
     },
 })
@@ -509,7 +509,7 @@ SPECS.update({
                  "B = csproto.Marshal(m), the write cursor (verif accessor) must advance by exactly that; Decoder.DecodeNested must consume exactly the field (reference walker extent), yield an equal message / the payload, return a failing nested "
                  "marshaler's / unmarshaler's error unchanged without moving the cursor, and reject a declared length beyond the buffer without invoking the nested decoder (stub counts invocations); "
                  "distinct by (nested kind, position, payload size class)"),
-        "explanation": "failing stubs are injected for every 7th stub case (MarshalTo error, Marshal error, Unmarshal error); every field is also decoded into a value of an unsupported type (must be refused, also for an empty payload) and, for generated/plain types, into a destination that already holds another value; every nested field is also decoded from a hand-made encoding with an over-long (valid) length prefix followed by another field",
+        "explanation": "failing stubs are injected for every 7th stub case (MarshalTo error, Marshal error, Unmarshal error); every field is also decoded into a value of an unsupported type (must be refused, also for an empty payload) and, for generated/plain types, into a destination that already holds another value; every nested field is also decoded from a hand-made encoding with an over-long (valid) length prefix followed by another field; every generated/plain case is repeated with a second object of the same contents that nobody has sized or marshaled before (expected bytes taken from its twin), so that no size cache of the owning runtime is warm when EncodeNested sees it",
         "assumptions": TRUST_GEN + TRUST_WIRE[2:],
     },
 })
